@@ -287,6 +287,27 @@ def programs(tier):
   return out
 
 
+# Join-heavy bodies placed after k branch statements, so that the CFG nodes of the joins get every
+# alignment relative to the 64-node words of the reachability matrix.
+PAD_BODIES = [
+    "if c0:\n  x = 1\nelse:\n  x = 'a'\ny = x",
+    "x = A()\nif c1:\n  x.v = 'late'\nelse:\n  x = B('q')\ny = x.v",
+    "x = None\nif c0:\n  x = [1]\nif c1:\n  y = x\nelse:\n  y = (x, 1.5)",
+]
+PAD_STMT = "if c1:\n  _p{i} = {i}\nelse:\n  _p{i} = None"
+
+
+def padded_programs(tier):
+  """(id, source, None): each body after k padding branches, k = 0..K."""
+  kmax = 45 if tier == "quick" else 90
+  out = []
+  for b, body in enumerate(PAD_BODIES if tier != "quick" else PAD_BODIES[:2]):
+    for k in range(kmax + 1):
+      src = PRELUDE + "".join(PAD_STMT.replace("{i}", str(i)) + "\n" for i in range(k)) + body + "\n"
+      out.append(("pad:%d/%d" % (b, k), src, None))
+  return out
+
+
 COND_ANSWERS = [("n", "n"), ("n", "y"), ("y", "n"), ("y", "y")]
 
 
